@@ -381,6 +381,25 @@ def _decode(repo, rep):
                 per_alt.append(chars)
             ok = any(c.issuperset(need) for c in per_alt)
             detail += " alternatives %r" % per_alt
+    # ... and is long enough: the longest name of the table the decoder
+    # looks names up in (html.entities.name2codepoint: 'thetasym', 8) and a
+    # seven-digit decimal reference (&#1114111;) fit one alternative
+    longest = 0
+    if body is not None:
+        for alt in alts:
+            alt = list(alt)
+            if len(alt) == 1 and alt[0][0] in (rx.C.MAX_REPEAT,
+                                                rx.C.MIN_REPEAT):
+                cs_ = rx.all_chars(alt[0][1][2])
+                if cs_.issuperset(need):
+                    longest = max(longest, alt[0][1][1])
+    import html.entities as _he
+    want_len = max(max(len(k) for k in _he.name2codepoint), 7)
+    rep.check(longest >= want_len, "R06.3", "chameleon.utils.entity_re",
+              "an entity body may be as long as the longest entity name of "
+              "the lookup table (%d characters)" % want_len,
+              construct="entity-body-length",
+              detail="longest body accepted: %s" % longest)
     rep.check(ok, "R06.3", "chameleon.utils.entity_re",
               "the entity pattern accepts digits and letters in an entity "
               "body (decimal and hexadecimal references such as &#x3c;, "
